@@ -155,7 +155,11 @@ func genC06Msg(t *Tape, e *Env, idx int, fill byte) []byte {
 	if target > cur+12 {
 		pad := target - cur - 8
 		pad -= (cur + 8 + pad) % 4
-		if pad > 0 {
+		if pad > 16 && t.Chance(1, 2) {
+			// the filler sits inside a grouped AVP, which is then the last AVP of the message
+			m.AVPs = append(m.AVPs, RefAVP{Code: avpSimGroup, Group: []RefAVP{{Code: 80007, Data: fb(pad-8, 99)}}})
+			e.Probe("last-avp-grouped")
+		} else if pad > 0 {
 			m.AVPs = append(m.AVPs, RefAVP{Code: 80007, Data: fb(pad, 99)})
 		}
 	}
